@@ -18,6 +18,7 @@
 // transition matrix (sparse rows, explicit stationary vector).  Everything else is
 // the library's code.
 #include "tracer.h"
+#include "param_audit.h"
 
 #include <Bpp/Exceptions.h>
 #include <Bpp/Numeric/AbstractParametrizable.h>
@@ -1233,6 +1234,7 @@ static long modeExact(Rng& g, long reps, long& scenarios, long& skipped)
 
 int main(int argc, char** argv)
 {
+  vt::installParamAudit(); // C01: audit of every Parameter of the process when VERIF_PARAM_AUDIT=<file> is set
   std::string out = argStr(argc, argv, "--out", "");
   std::string mode = argStr(argc, argv, "--mode", "cache");
   long n = argInt(argc, argv, "--n", 50);
